@@ -21,7 +21,8 @@ CONSTANTS NK,          \* key universe 1..NK
           MaxT,        \* data times 0..MaxT
           Files,       \* set of files to start from: [1..NK -> layouts]; a layout is a sequence of blocks (sets of times)
           MaxOps,      \* bound on delete operations per behaviour
-          CrashPts,    \* commit points at which a behaviour may crash (subset of Points)
+          CrashPts,    \* commit points at which a behaviour may crash and restart through the engine (cleanup removes *.tmp)
+          KeepPts,     \* commit points at which a behaviour may crash and reopen only the reader: a stale .tombstone.tmp stays
           KeepHist,
           Mode         \* "pristine": input shaped (no actions);  "tomb": delete / crash / reopen behaviours
 
@@ -40,7 +41,9 @@ vars == <<file, ix, tombFile, tmp, pc, cur, reqs, nops, hist>>
 NegInf == -100
 PosInf == 100
 Points == {"created", "copied", "flushed", "synced", "renamed", "dirsynced"}
-CrashSome == {"copied", "renamed"}      \* simulation configs: one point with the old and one with the new outcome
+CrashSome == {"renamed"}                \* simulation configs: engine restart after the rename (new outcome) ...
+KeepSome == {"synced"}                  \* ... reader reopen with the complete temp file left behind (old outcome)
+KeepAll == {"created", "copied", "flushed", "synced"}
 NoOp == [op |-> [a |-> "none", keys |-> {}, lo |-> 0, hi |-> 0], entries |-> <<>>]
 NoTmp == [exists |-> FALSE, copied |-> 0, new |-> "none"]
 Times == 0..MaxT
@@ -170,9 +173,11 @@ PristineObs(f) ==
 Log(rec) == hist' = IF KeepHist THEN Append(hist, rec) ELSE hist
 
 \* ------------------------------------------------------------------ actions (Mode = "tomb")
-OpRec(op, crash, x, es, newx) ==
-  [a |-> op.a, keys |-> SortSet(op.keys), lo |-> op.lo, hi |-> op.hi, crash |-> crash,
+\* keep: the crash leaves the temp file behind (reader level reopen); err: the call fails, nothing is acknowledged
+OpRecX(op, crash, keep, err, x, es, newx) ==
+  [a |-> op.a, keys |-> SortSet(op.keys), lo |-> op.lo, hi |-> op.hi, crash |-> crash, keep |-> keep, err |-> err,
    exp |-> Obs(file, x, es), new |-> VisMap(file, newx)]
+OpRec(op, crash, x, es, newx) == OpRecX(op, crash, FALSE, FALSE, x, es, newx)
 
 \* TSMReader.DeleteRange / Delete up to prepareV4's O_EXCL create (nothing is created when every key is filtered out)
 Begin(op) ==
@@ -183,6 +188,11 @@ Begin(op) ==
      THEN /\ reqs' = Append(reqs, AsReq(op))                  \* acknowledged, nothing to record
           /\ Log(OpRec(op, "none", ix, tombFile, ix))
           /\ UNCHANGED <<file, ix, tombFile, tmp, pc, cur>>
+     ELSE IF tmp.exists
+     \* prepareV4 opens the temp file with O_EXCL: while a stale temp file is around the call fails with "file exists";
+     \* nothing is recorded, nothing is acknowledged (the engine's cleanup removes the file at the next restart)
+     THEN /\ Log(OpRecX(op, "none", FALSE, TRUE, ix, tombFile, ApplyAll(file, ix, es)))
+          /\ UNCHANGED <<file, ix, tombFile, tmp, pc, cur, reqs>>
      ELSE /\ cur' = [op |-> op, entries |-> es]
           /\ tmp' = [exists |-> TRUE, copied |-> 0, new |-> "none"]
           /\ pc' = "created"
@@ -224,13 +234,23 @@ CrashReopen ==
      /\ Log(OpRec(cur.op, pc, x1, tombFile, ApplyAll(file, Load(file, tombFile), IF took THEN <<>> ELSE cur.entries)))
   /\ tmp' = NoTmp /\ cur' = NoOp /\ pc' = "idle"
   /\ UNCHANGED <<file, tombFile, nops>>
-\* clean close + reopen
+\* the same failure, but only the reader is reopened (TSMReader / Tombstoner level: nothing removes .tombstone.tmp)
+CrashReopenKeep ==
+  /\ pc \in KeepPts \cap {"created", "copied", "flushed", "synced"}
+  /\ LET x1 == Load(file, tombFile) IN
+     /\ ix' = x1
+     /\ Log(OpRecX(cur.op, pc, TRUE, FALSE, x1, tombFile, ApplyAll(file, x1, cur.entries)))
+  /\ tmp' = [tmp EXCEPT !.new = IF pc \in {"flushed", "synced"} THEN "full" ELSE "none"]
+  /\ cur' = NoOp /\ pc' = "idle"
+  /\ UNCHANGED <<file, tombFile, reqs, nops>>
+\* clean close + engine restart (cleanup removes a stale temp file)
 Reopen == /\ Mode = "tomb" /\ pc = "idle" /\ nops > 0
           /\ (KeepHist => (Len(hist) > 0 /\ hist[Len(hist)].a # "reopen"))
           /\ ix' = Load(file, tombFile)
-          /\ Log([a |-> "reopen", keys |-> <<>>, lo |-> 0, hi |-> 0, crash |-> "none",
+          /\ tmp' = NoTmp
+          /\ Log([a |-> "reopen", keys |-> <<>>, lo |-> 0, hi |-> 0, crash |-> "none", keep |-> FALSE, err |-> FALSE,
                   exp |-> Obs(file, Load(file, tombFile), tombFile), new |-> VisMap(file, Load(file, tombFile))])
-          /\ UNCHANGED <<file, tombFile, tmp, pc, cur, reqs, nops>>
+          /\ UNCHANGED <<file, tombFile, pc, cur, reqs, nops>>
 
 Bounds == {NegInf, PosInf} \cup ProbeT
 Ops == {[a |-> "deleteRange", keys |-> ks, lo |-> lo, hi |-> hi] :
@@ -242,6 +262,7 @@ BeginAny == \E op \in Ops : GoodOp(op) /\ Begin(op)
 Next == \/ BeginAny
         \/ Copy \/ Flush \/ Fsync \/ Rename \/ SyncDir \/ Apply
         \/ CrashReopen
+        \/ CrashReopenKeep
         \/ Reopen
 
 Init == /\ file \in Files
@@ -268,6 +289,8 @@ AtomicTombstoneCommit ==
   /\ pc \in {"renamed", "dirsynced"} => \A k \in K :
         VisibleImpl(file, Load(file, tombFile), k) = Visible(file, Append(reqs, AsReq(cur.op)), k)
 \* a removed key has no visible point left, a visible point is reported by ContainsValue
+\* a stale temp file never changes what a reopen shows, and a delete refused because of it changes nothing
+StaleTmpHarmless == (pc = "idle" /\ tmp.exists) => \A k \in K : VisibleImpl(file, Load(file, tombFile), k) = Visible(file, reqs, k)
 IndexConsistent == \A k \in K : /\ (pc = "idle" /\ k \notin ix.live) => Visible(file, reqs, k) = {}
                                  /\ \A t \in VisibleImpl(file, ix, k) : ContainsValue(file, ix, k, t)
 
